@@ -3,7 +3,7 @@
    (PERT-free priority rules, no individual absences, auto-task flag off). *)
 From Coq Require Import List ZArith QArith Bool Arith Lia.
 From PV Require Import Model.Types Model.Sim Model.LogEdit Proofs.Base Proofs.Frames Proofs.Proj Proofs.RunLemmas
-  Proofs.LogsProof Proofs.C13Proof Proofs.C13Run Proofs.C15Proof Proofs.C18Proof Proofs.C03Res Proofs.C12Proof Proofs.C12Run Proofs.KeyCong Proofs.KeepList Proofs.PertShift Proofs.C10Del Proofs.C10Auto.
+  Proofs.LogsProof Proofs.C13Proof Proofs.C13Run Proofs.C15Proof Proofs.C18Proof Proofs.C03Res Proofs.C12Proof Proofs.C12Run Proofs.KeyCong Proofs.KeepList Proofs.PertShift Proofs.PertEst Proofs.C10Del Proofs.C10Auto.
 Import ListNotations.
 Open Scope nat_scope.
 
@@ -191,13 +191,28 @@ Definition stutter_class : Prop :=
       /\ (forall p f, In f (wp_facs c p) -> f < nF c)).
 
 (* when do the two runs order the candidates the same way: the rule does not
-   read PERT values, or it is TSLACK / EST on a finish-to-start DAG with
+   read PERT values, or it is EST on any network whose links stay inside the
+   task list (`PertEst.v`), or it is TSLACK / EST on a finish-to-start DAG with
    non-negative work amounts *)
 Definition sort_class : Prop :=
   pert_free (o_rule oA)
+  \/ ((o_rule oA = 1)%Z /\ edges_in_range c)
   \/ ((o_rule oA = 0 \/ o_rule oA = 1)%Z
       /\ (exists rank, fs_dag c rank) /\ 0 < nT c
       /\ (forall t, t < nT c -> (0 <= t_work c t)%Q /\ (0 <= t_progress c t <= 1)%Q)).
+
+Definition easy_sort : Prop := pert_free (o_rule oA) \/ ((o_rule oA = 1)%Z /\ edges_in_range c).
+
+Lemma SortAgree_easy x y : easy_sort -> KEg c false (update c oA x) (update c oA y) ->
+  SortAgree c (o_rule oA) (update c oA x) (update c oA y).
+Proof.
+  intros [Hr|[Hr HR]] HK; [apply (SortAgree_pert_free c false); assumption|].
+  rewrite Hr.
+  destruct (update_as_pert c oA x) as (sx & Ex & _ & Rx). destruct (update_as_pert c oA y) as (sy & Ey & _ & Ry).
+  rewrite Ex, Ey. apply (SortAgree_est c (time sx) (time sy) sx sy HR).
+  intros v. pose proof (Rx v) as A. pose proof (Ry v) as B. unfold C02Proof.remof in A, B.
+  rewrite A, B. apply (KE_rem c false _ _ v HK).
+Qed.
 
 Lemma NN_next rank o x : fs_dag c rank -> NN c x -> NN c (next c o (update c o x)).
 Proof.
@@ -210,9 +225,14 @@ Theorem deletion_gives_the_absence_free_run : stutter_class -> sort_class -> for
   same_result (snd (remove_absence c (L, fst (simulate c oA s0)))) (fst (simulate c oB s0)).
 Proof.
   intros HS HP.
+  assert (HP' : easy_sort \/ ((o_rule oA = 0 \/ o_rule oA = 1)%Z
+      /\ (exists rank, fs_dag c rank) /\ 0 < nT c
+      /\ (forall t, t < nT c -> (0 <= t_work c t)%Q /\ (0 <= t_progress c t <= 1)%Q))).
+  { destruct HP as [H|[H|H]]; [left; left; exact H|left; right; exact H|right; exact H]. }
+  clear HP. rename HP' into HP.
   apply (deletion_generic
-           (fun x => (o_auto_abs oA = false \/ Q0 c x) /\ (pert_free (o_rule oA) \/ NN c x))
-           (fun y => pert_free (o_rule oA) \/ NN c y)).
+           (fun x => (o_auto_abs oA = false \/ Q0 c x) /\ (easy_sort \/ NN c x))
+           (fun y => easy_sort \/ NN c y)).
   - intros x [H1 H2]. split.
     + destruct HS as [Ha|(Hna & W1 & W2 & W3)]; [left; exact Ha|].
       destruct H1 as [Ha|HQ]; [left; exact Ha|right; apply Q0_next; assumption].
@@ -228,9 +248,9 @@ Proof.
         -- apply absence_half_auto; assumption.
         -- apply absence_half; [exact Ea|]. rewrite (time_update c oA). exact Hm.
   - intros x y [_ H2] H3 HK.
-    destruct HP as [Hr|(Hrule & (rank & D) & Hn & _)]; [apply (SortAgree_pert_free c false); assumption|].
-    destruct H2 as [Hr|HNx]; [apply (SortAgree_pert_free c false); assumption|].
-    destruct H3 as [Hr|HNy]; [apply (SortAgree_pert_free c false); assumption|].
+    destruct HP as [Hr|(Hrule & (rank & D) & Hn & _)]; [apply SortAgree_easy; assumption|].
+    destruct H2 as [Hr|HNx]; [apply SortAgree_easy; assumption|].
+    destruct H3 as [Hr|HNy]; [apply SortAgree_easy; assumption|].
     apply (SortAgree_pert c rank D _ _ (inject_nat (time x)) (inject_nat (time y))).
     + apply (update_PertOK c rank D Hn). exact HNx.
     + apply (update_PertOK c rank D Hn). exact HNy.
